@@ -222,7 +222,7 @@ CHECKS["C07"] = NS(
         "exactly representable: the result must be bit-exact on every route whatever the accumulation order) and realistic "
         "mode (accumulation bound, finiteness). Worker crashes (SIGSEGV in torch kernels) are contained and reported. Exploration."
     ),
-    LEVEL_NOTE="float64 reference; realistic bound (K+4)u*sum|x||w| + 3u|ref| + scale-product underflow term; CPU routes only (CUDA int GEMM thresholds are exercised through aten.mm dispatch on CPU)",
+    LEVEL_NOTE="float64 reference; realistic bound (K+4)u*sum|x||w| + 3u|ref| + eta; CPU routes only (CUDA int GEMM thresholds are exercised through aten.mm dispatch on CPU)",
     TECHNIQUE=PBT + "bit-exact oracle on exactly representable operand sets, float64 accumulation bound, differential between kernel routes, crash containment",
     RULE=(
         "Hypothesis: rows 1-64 (both sides of >16 and %8), features from 34 values covering residues mod 32/16/8/4/odd/1 up to 512, "
